@@ -140,6 +140,44 @@ theorem c20_call_once (P : Prog) (s s' : State) (t id : Nat) (rest : List Instr)
     | nil => rfl
     | cons a r => cases r <;> rfl
 
+/-- **Refused join.** When `pthread_join` refuses (`EDEADLK`: a thread joining itself; `EINVAL`: the thread was
+detached) `aws_thread_join` returns the error and nothing else happens: the handle's detach state stays JOINABLE —
+so a later join by the owner still performs the real `pthread_join` and waits for the thread (`joinU` is enabled
+only when the target has exited) — and count, pending list, lock, detach flags, every other thread and the
+joiner's own status / at-exit chain are untouched; the only trace is the `joinFail` event. -/
+theorem c20_failed_join_unchanged (P : Prog) (s s' : State) (t k : Nat) (rest : List Instr)
+    (h : exec P s t (.joinU k) rest = some s') (hf : t = k ∨ s.detachedS k = true) :
+    s'.hstate = s.hstate ∧ s'.detachedS = s.detachedS ∧ s'.count = s.count ∧ s'.pending = s.pending ∧
+    s'.lockOwner = s.lockOwner ∧ (∀ j, j ≠ t → s'.th j = s.th j) ∧ (s'.th t).status = (s.th t).status ∧
+    (s'.th t).chain = (s.th t).chain ∧ ∃ e, e ≠ 0 ∧ s'.log = Ev.joinFail k t e :: s.log := by
+  simp only [exec] at h
+  split at h
+  · simp only [Option.some.injEq] at h; subst h
+    exact ⟨rfl, rfl, rfl, rfl, rfl, fun j hj => by simp [upd_apply, hj], by simp, by simp, 35, by decide, rfl⟩
+  · split at h
+    · simp only [Option.some.injEq] at h; subst h
+      exact ⟨rfl, rfl, rfl, rfl, rfl, fun j hj => by simp [upd_apply, hj], by simp, by simp, 22, by decide, rfl⟩
+    · rename_i h1 h2
+      rcases hf with hf | hf
+      · exact absurd hf h1
+      · exact absurd hf h2
+
+/-- a real join: only on a JOINABLE-path `joinU` whose target is another, not detached, exited thread -/
+theorem c20_join_needs_exit (P : Prog) (s s' : State) (t k b : Nat) (rest : List Instr)
+    (h : exec P s t (.joinU k) rest = some s') (hl : s'.log = Ev.joinRet k b :: s.log) :
+    (s.th k).status = .exited ∧ (s'.th k).status = .joined ∧ t ≠ k ∧ s'.hstate k = .joinCompleted := by
+  simp only [exec] at h
+  split at h
+  · simp only [Option.some.injEq] at h; subst h; simp at hl
+  · split at h
+    · simp only [Option.some.injEq] at h; subst h; simp at hl
+    · split at h
+      · rename_i h1 _ h3
+        simp only [Option.some.injEq] at h; subst h
+        have hne : ¬ k = t := fun e => h1 e.symm
+        exact ⟨h3, by simp [upd_apply, hne], h1, by simp [pushW, pushLog, cont]⟩
+      · simp at h
+
 /-- c20_managed_inv = accounting + ownership -/
 theorem c20_managed_inv (P : Prog) (wf : WF P) (s : State) (h : Reachable P s) :
     (s.count + inflightMinus P s = liveManaged P s + inflightPlus P s ∧ s.pending.length ≤ 1) ∧
